@@ -181,6 +181,10 @@ func init() {
 					Bound: "every multiset of 9 edges over the 15 pairs of 6 nodes, 2 orders"},
 				&Pass{Name: "D(7,8)", Space: spaceD(7, 7, 8, false), Eval: stdEval("C10", staticGrid(gd), or),
 					Bound: "every multiset of 7..8 edges over the 21 pairs of 7 nodes"},
+				&Pass{Name: "D(6,10)", Space: spaceD(6, 10, 10, false), Eval: stdEval("C10", staticGrid(gd), or),
+					Bound: "every multiset of 10 edges over the 15 pairs of 6 nodes"},
+				&Pass{Name: "D(7,9)", Space: spaceD(7, 9, 9, false), Eval: stdEval("C10", staticGrid(gd), or),
+					Bound: "every multiset of 9 edges over the 21 pairs of 7 nodes (10 M inputs)"},
 			)
 		}
 		return ps
